@@ -34,3 +34,36 @@ contract("artap.operators:Selector.pop_acceptance", props=["C09"],
          ghost={"after:del individuals[random.choice(dominates)]": ["gk = dominates[_choice_index]"],
                 "after:individuals.remove(random.choice(individuals))": ["gk = _removed_index"]},
          modifies=["list(individuals)"], allocates=["$list.Int", "$len.Int"])
+
+# ---- whole runs: orchestration of the verified steps (BOUNDED: evaluated at run time on real runs, never counted as proved) --
+# ghost attributes installed by the scenario: problem.ghost_calls (successful objective evaluations), problem.ghost_vectors
+# (every vector handed to the objective), run_N / run_G (configuration)
+define("gen_of", ["p", "g"], "[x for x in p.individuals if x.population_id == g]")
+define("vclose", ["a", "b"], "len(a.vector) == len(b.vector) and all(abs(u - v) < 1e-10 for u, v in zip(a.vector, b.vector))")
+define("run_in_box", ["p"],
+       "all(len(v) == len(p.parameters) and all(q['bounds'][0] - 1e-12 / 2 <= c and c <= q['bounds'][1] + 1e-12 / 2 "
+       "for c, q in zip(v, p.parameters)) for v in p.ghost_vectors)")
+define("dominates_rt", ["p", "a", "b"], "p.ghost_cmp.compare(a.costs_signed, b.costs_signed) == 1")
+_RUN_COMMON = ["run_in_box(self.problem)"]
+contract("artap.algorithm_NSGAII:NSGAII.run", props=["C09", "C08"], options={"bounded_only": True},
+         trusted="bounded: orchestration of generate / evaluate / sort / truncate checked on real runs only",
+         ensures=_RUN_COMMON + [
+             "self.problem.ghost_calls == self.run_N * self.run_G",
+             "all(1 <= x.population_id and x.population_id <= self.run_G for x in self.problem.individuals)",
+             "all(len(gen_of(self.problem, g)) == self.run_N for g in range(1, self.run_G + 1))",
+             "all(not vclose(a, b) for g in range(2, self.run_G + 1) for i, a in enumerate(gen_of(self.problem, g)) "
+             "for j, b in enumerate(gen_of(self.problem, g)) if i < j)",
+             # generational elitism: a dropped design of generation g never dominates a survivor in generation g + 1
+             "all(not dominates_rt(self.problem, d, s) for g in range(1, self.run_G) for d in gen_of(self.problem, g) "
+             "if not any(vclose(d, t) for t in gen_of(self.problem, g + 1)) for s in gen_of(self.problem, g + 1))",
+             "implies(len(self.problem.costs) == 1, all(min(x.costs[0] for x in gen_of(self.problem, g + 1)) <= "
+             "min(x.costs[0] for x in gen_of(self.problem, g)) + 1e-12 for g in range(1, self.run_G)))"])
+for _t in ("artap.algorithm_genetic:EpsMOEA.run", "artap.algorithm_swarm:OMOPSO.run", "artap.algorithm_swarm:SMPSO.run"):
+    contract(_t, props=["C09", "C08"], options={"bounded_only": True},
+             trusted="bounded: orchestration checked on real runs only",
+             ensures=_RUN_COMMON + [
+                 "self.problem.ghost_calls == self.run_N * (self.run_G + 1)",
+                 "all(0 <= x.population_id and x.population_id <= self.run_G for x in self.problem.individuals)",
+                 "all(len(gen_of(self.problem, g)) == self.run_N for g in range(0, self.run_G + 1))"])
+contract("artap.algorithm_swarm:PSOGA.run", props=["C08"], options={"bounded_only": True},
+         trusted="bounded: orchestration checked on real runs only", ensures=_RUN_COMMON)
